@@ -146,13 +146,21 @@ pub fn gen_source(r: &mut Rng, cfg: &SrcCfg) -> String {
     }
     for _ in 0..cfg.syntax_errors {
         let i = r.below(lines.len().max(1));
-        let bad = *r.pick(&["x = = 1", "def (:", "foo(1,, 2", ") + (", "class :"]);
-        if i < lines.len() {
-            // keep indentation of the replaced line so the damage stays local
-            let pad: String = lines[i].chars().take_while(|c| *c == ' ').collect();
-            lines.insert(i, format!("{}{}", pad, bad));
+        // ERROR-node faults and MISSING-token-only faults (the latter leave no ERROR node)
+        let bad = if r.chance(1, 3) {
+            *r.pick(&["def f(:\n    pass", "def zz(:\n    x = 1\n    return x"])
         } else {
-            lines.push(bad.to_string());
+            *r.pick(&["x = = 1", "def (:", "foo(1,, 2", ") + (", "class :"])
+        };
+        // keep indentation of the displaced line so the damage stays local
+        let pad: String = if i < lines.len() {
+            lines[i].chars().take_while(|c| *c == ' ').collect()
+        } else {
+            String::new()
+        };
+        let at = i.min(lines.len());
+        for (k, l) in bad.lines().enumerate() {
+            lines.insert(at + k, format!("{}{}", pad, l));
         }
     }
     let mut s = lines.join("\n");
